@@ -246,11 +246,17 @@ def enrich_fromaudits(report_: richreports.report, atok) -> richreports.report:
             else:
                 enrich_keyword(report_, start, 6)
                 t = audits(a.value, "types") if a.value is not None else type(None)
+                t_str = type_to_str(t)
+                if isinstance(audits(a, "types"), TypeError):
+                    # The returned value does not have the declared return type.
+                    t = audits(a, "types")
+                    t_str = "TypeError: " + str(t)
+                    enrich_from_type(report_, t, start, start + (0, 6))
                 _enrich(
     report_,
                     start,
                     start + (0, 6),
-                    '<span class="detail" data-detail="' + type_to_str(t) + '">',
+                    '<span class="detail" data-detail="' + t_str + '">',
                     "</span>",
                     True,
                 )
